@@ -986,26 +986,69 @@ def unit_sources(ctx):
         _unit_sources(ctx)
 
 
+# which of two descriptors of the SAME name wins (first in the document, first source, cached vs fetched again) is not the
+# property's business: these classes are judged by the oracle only
+SAME_NAME_TWICE = ("mdq-aggregate-twice", "remote-twice", "mdq-own-then-rekeyed", "mdq-own+inline-rekeyed")
+
+
+def desc_coq(nl):
+    n, layout = nl
+    return "{| d_id := %s; d_ent := [%s] |}" % (cstr(SRC_ISSUERS[n]), clist(layout, lambda kd: "{| kd_use := %s; kd_certs := %s |}" % (
+        copt(kd[0], cstr), clist(kd[1], lambda c: "%d" % KID[c]))))
+
+
+def source_coq(s):
+    if s["typ"] == "mdq":
+        return "(Lazy [])"
+    return "(Static %s)" % clist(s["fed"], desc_coq)
+
+
+def answer_coq(a):
+    if a is None or a["kind"] in ("status", "other-xml"):
+        return "NotFound"
+    if a["kind"] in ("empty", "garbage"):
+        return "Unparsable"
+    return "(Served %s)" % clist(a["ents"], desc_coq)
+
+
+def step_coq(o, ans):
+    return "{| q_srv := fun _ => %s; q_issuer := %s; q_embedded := %s; q_signer := %d |}" % (
+        answer_coq(ans), cstr(SRC_ISSUERS[o["issuer"]]), clist([o["key"]] if o["embed"] else [], lambda c: "%d" % KID[c]), KID[o["key"]])
+
+
 def _unit_sources(ctx):
+    cases = []
     n = net()
     n.install()
     try:
         for cl in source_clients(ctx):
             sp = S.build_client(cl, n, SRC_ISSUERS)
             ops = source_ops(ctx, cl)
+            steps, outcomes = [], []
             for j, o in enumerate(ops):
-                answered = n.peek(S.mdq_url(cl, SRC_ISSUERS[o["issuer"]]))["kind"] if any(s["typ"] == "mdq" for s in cl["sources"]) else None
+                ans = n.peek(S.mdq_url(cl, SRC_ISSUERS[o["issuer"]])) if any(s["typ"] == "mdq" for s in cl["sources"]) else None
+                answered = ans["kind"] if ans else None
+                if answered in ("garbage", "empty") and not only_on(cl):
+                    o["embed"] = None         # ParseError out of the lookup vs 'no metadata key': left open, so nothing rides on it
                 accepted, got = source_run_op(sp, o)
+                steps.append(step_coq(o, ans))
+                outcomes.append(V(accepted))
                 ctx.nontriv(("source", cl["name"], j, tuple(sorted(o.items(), key=str))))
                 ctx.count("source:%s:%s" % (source_types(cl), "accepted" if accepted else "rejected:" + (got.name if isinstance(got, Exn) else "e2e")))
                 bad = source_judge(cl, o, accepted, answered)
                 if bad:
                     ctx.oracle_fail(bad[0], "%s (client %s, operation %d of its history: %s)" % (bad[1], cl["name"], j, json.dumps(o)),
                                     dict(kind="sources", client=cl, ops=ops[:j + 1], accepted=accepted))
+            if cl["cls"] not in SAME_NAME_TWICE:
+                cases.append(dict(id=len(cases), coq="(%s, %s, %s)" % (cbool(only_on(cl)), clist(cl["sources"], source_coq), clist(steps, lambda x: x)),
+                                  impl=outcomes, show=dict(client=cl["name"], sources=cl["sources"], operations=ops)))
             if cl["name"] in ("mdq-another:on:B-first", "mdq-aggregate-AB:off:A-first"):
                 ctx.sample(dict(client=cl["name"], sources=cl["sources"], first_operations=ops[:3], requests=[u for u, _ in n.log if cl["name"] in u][:4]))
     finally:
         n.restore()
+    ctx.correspond("metadata_sources_lazy_and_static", "Model.Sigver Model.CertSelect Model.CertSource",
+                   "fun c : bool * list source * list step => match c with (o, ss, qs) => show_verdicts_src (run_steps o ss qs) end",
+                   "(bool * list source * list step)", cases, shard=40)
 
 # ---------------------------------------------------------------------------------------------
 def replay(ctx, payload):
